@@ -13,7 +13,7 @@ from qvm.module import QModule
 from qvm.trap import TrapCode
 
 CONFIGS = [(0, False), (1, False), (2, False), (0, True), (1, True),
-           (2, True)]
+           (2, True), (3, False), (3, True)]
 
 
 class BudgetExceeded(Exception):
@@ -267,8 +267,57 @@ def beep_seeder(get_cpu, mapping, counter=None):
     return on_beep
 
 
+def make_dumb_impl(**kw):
+    """The real DumbPeripheralsImpl (BasePeripheralsImpl + DumbTerminalMixin)
+    with stdout/stdin replaced by the trace / the input script."""
+    import qvm.machine as machine
+
+    class DumbRec(machine.DumbPeripheralsImpl):
+        def __init__(self, inkeys=(), peeks=(), inputs=(), rnds=(),
+                     timers=(), on_beep=None):
+            machine.DumbPeripheralsImpl.__init__(self)
+            self.trace = []
+            self.inputs = list(inputs)
+            self.rnds = list(rnds)
+            self.timers = list(timers)
+            self.on_beep = on_beep
+            self.n_beeps = 0
+            self.script_exhausted = False
+
+        def _rec(self, *entry):
+            self.trace.append(entry)
+
+        def _stdout(self, *args, **kwargs):
+            self._rec('stdout', ''.join(str(a) for a in args))
+
+        def pcspkr_beep(self):
+            self.n_beeps += 1
+            if self.on_beep is not None:
+                self.on_beep(self)
+            else:
+                self._rec('pcspkr', 'beep')
+
+        def terminal_input(self, same_line):
+            if same_line:
+                return machine.DumbPeripheralsImpl.terminal_input(
+                    self, same_line)
+            if not self.inputs:
+                raise BudgetExceeded('input script exhausted')
+            return self.inputs.pop(0)
+
+        def rng_get_next(self):
+            return self.rnds.pop(0) if self.rnds else 0.5
+
+        def time_get_time(self):
+            return self.timers.pop(0) if self.timers else 0.0
+
+    impl = DumbRec(**kw)
+    machine.print = impl._stdout      # module-level name shadows builtins
+    return impl
+
+
 def run_program(src, opt, dbg, budget, seeds=None, per_tick=None,
-                catch_host_exc=False, **impl_kwargs):
+                catch_host_exc=False, impl_kind='sym', **impl_kwargs):
     """Compile (concretely), run with symbolic environment.
     seeds: {(CellType, sentinel): value} applied at the first BEEP.
     Returns (trace, Outcome, machine)."""
@@ -278,7 +327,10 @@ def run_program(src, opt, dbg, budget, seeds=None, per_tick=None,
     on_beep = None
     if seeds:
         on_beep = beep_seeder(lambda: holder[0].cpu, seeds, seeded)
-    impl = SymImpl(on_beep=on_beep, **impl_kwargs)
+    if impl_kind == 'dumb':
+        impl = make_dumb_impl(on_beep=on_beep, **impl_kwargs)
+    else:
+        impl = SymImpl(on_beep=on_beep, **impl_kwargs)
     machine = make_machine(module, impl)
     holder.append(machine)
     out = run_machine(machine, budget, per_tick, catch_host_exc)
